@@ -549,6 +549,7 @@ def run_impl(parts, ops_of, gdir, tdir, tag, binprefix="evc_s", bindir="debug"):
             if getattr(c, "_resume_ops", None):
                 c._resume_ops = None
     pending = {k: [c for c in part if ops_of(c)] for k, part in enumerate(parts)}
+    hangs = {}
     for attempt in range(40):
         todo = {k: cs for k, cs in pending.items() if cs}
         if not todo:
@@ -559,8 +560,14 @@ def run_impl(parts, ops_of, gdir, tdir, tag, binprefix="evc_s", bindir="debug"):
             write_lines(p, ["%s %s" % (c.cid, " ".join(getattr(c, "_resume_ops", None) or ops_of(c))) for c in cs])
             cmds.append([os.path.join(tdir, bindir, "%s%d" % (binprefix, k)), p])
             keys.append(k)
-        res = run_parallel(cmds, timeout=3000)
+        # a shard takes seconds (quick) to a minute (thorough); a run that hangs (a changed crate may
+        # loop or crawl on the bytes it is fed) is killed, counted, and the case it was on is recorded
+        # as a crash; after three such hangs the rest of the shard is given up
+        budget = 120 if sum(len(cs) for cs in todo.values()) < 4000 else 900
+        res = run_parallel(cmds, timeout=budget)
         for k, (rc, out, err) in zip(keys, res):
+            if rc == 124:
+                hangs[k] = hangs.get(k, 0) + 1
             done = set()
             base = None
             for line in out.splitlines():
@@ -622,6 +629,9 @@ def run_impl(parts, ops_of, gdir, tdir, tag, binprefix="evc_s", bindir="debug"):
                     # the rest of the crashed case's operations still run
                     crashed._resume_ops = after
                     rest = [crashed] + rest
+                if hangs.get(k, 0) >= 3:
+                    errs.append("generated shard %d hung %d times (last on case %s): the rest of the shard was not run" % (k, hangs[k], crashed.cid))
+                    rest = []
                 pending[k] = rest
     else:
         errs.append("generated shards kept aborting (more than 40 restarts)")
